@@ -19,7 +19,7 @@ func init() {
 		"validation phase skipped (transitions are created alreadyValidated=true, as for locally proposed blocks)",
 	}
 	assume := []string{
-		"yield granularity: scripted handlers yield before and right after every world-state call and before returning; real v3 handlers yield before/after touching their two accounts, before and after the real Execute, and between the operations of the harness SCORE; interleavings below that granularity (inside one real handler call) are not chosen by the tape",
+		"yield granularity: scripted handlers yield before and right after every world-state call and before returning; real v3 handlers yield at start, after touching each declared account, after the real Execute, and between the operations of the harness SCORE; the dispatcher of executeTxsConcurrent yields each time it asks the block's transaction list for the next transaction (so it is a scheduled task too); interleavings below that granularity (inside one real handler call, inside worldvirtualstate's own critical sections) are not chosen by the tape",
 		"every transaction's stepLimit is at least default + input cost (what PreValidate enforces); insufficient balance is NOT excluded (blocks are executed alreadyValidated=true so that the out-of-balance branches are reachable)",
 		"no fee sharing / deposits (statement of C15), no open BTP network (BTP messages are only emitted by harness SCORE programs that end in failure)",
 		"handler errors (system failures) are injected by the harness wrapper/handler; retry-then-success uses at most 2 failing attempts (goloop retries twice)",
@@ -29,6 +29,9 @@ func init() {
 
 	kit.Register(&kit.PropertySpec{
 		ID: "C09", Engine: "execsim",
+		// "plain": no handler error is ever injected (every block must succeed); "faults": handler errors injected
+		// (finite retryable ones relax "the block must succeed" to "same outcome as the sequential executor")
+		Profiles: []kit.ProfileSpec{{Name: "plain", Weight: 2}, {Name: "faults", Weight: 3}},
 		QuickRuns: 2400, QuickBudgetS: 45, ThoroughRuns: 400000, ThoroughBudgetS: 660,
 		// "identical to executing one by one ... for every goroutine schedule": a schedule under which the
 		// executing process dies is not identical to the sequential execution (which the same run performs afterwards)
@@ -47,6 +50,9 @@ func init() {
 	})
 	kit.Register(&kit.PropertySpec{
 		ID: "C10", Engine: "execsim",
+		// "plain": no handler error is ever injected (every block must succeed); "faults": handler errors injected
+		// (finite retryable ones relax "the block must succeed" to "same outcome as the sequential executor")
+		Profiles: []kit.ProfileSpec{{Name: "plain", Weight: 1}, {Name: "faults", Weight: 5}},
 		QuickRuns: 2400, QuickBudgetS: 45, ThoroughRuns: 400000, ThoroughBudgetS: 660,
 		CrashIsViolation: true,
 		Rule: "same generator as C09 with handler errors injected into ~30% of the transactions at a drawn position: retryable (ExecutionFailError / CriticalRerunError) for the first 1-2 attempts, retryable on every attempt (retry-exhausted) or non-retryable; both executor modes (level 1 and level > 1 each scheduled by the tape, plus the unscheduled sequential reference). " +
@@ -63,6 +69,9 @@ func init() {
 	})
 	kit.Register(&kit.PropertySpec{
 		ID: "C15", Engine: "execsim",
+		// "plain": no handler error is ever injected (every block must succeed); "faults": handler errors injected
+		// (finite retryable ones relax "the block must succeed" to "same outcome as the sequential executor")
+		Profiles: []kit.ProfileSpec{{Name: "plain", Weight: 3}, {Name: "faults", Weight: 2}},
 		QuickRuns: 2400, QuickBudgetS: 45, ThoroughRuns: 400000, ThoroughBudgetS: 660,
 		Rule: "same generator biased to v3 transfers/messages and value-carrying SCORE calls with drawn balances (rich, about-a-fee, tiny, zero), values (small, zero, none, about the balance, above it), step limits (comfortable, minimum, just above, just beyond what the balance pays) and step price (0, 1, 7, 10, 12.5e9); retried transactions included. Checked on the scheduled execution and on the sequential one. " +
 			"Non-trivial = at least one fee-paying transaction executed at a non-zero step price; distinct = distinct event-log hash.",
@@ -78,6 +87,9 @@ func init() {
 	})
 	kit.Register(&kit.PropertySpec{
 		ID: "C16", Engine: "execsim",
+		// "plain": no handler error is ever injected (every block must succeed); "faults": handler errors injected
+		// (finite retryable ones relax "the block must succeed" to "same outcome as the sequential executor")
+		Profiles: []kit.ProfileSpec{{Name: "plain", Weight: 3}, {Name: "faults", Weight: 2}},
 		QuickRuns: 2400, QuickBudgetS: 45, ThoroughRuns: 400000, ThoroughBudgetS: 660,
 		Rule: "same generator biased to calls into the harness SCORE whose program writes storage, read-modify-writes storage, emits event logs, sends BTP messages, transfers value out by inter-call and then succeeds / reverts / exhausts the steps / makes an invalid inter-call / panics, with drawn (sometimes tight) step limits, plus failing transfers; retried transactions included. " +
 			"Non-trivial = at least one failed receipt; distinct = distinct event-log hash.",
